@@ -1,6 +1,6 @@
 SPECIFICATION Spec
 CONSTANTS
-  Programs <- Family3
+  Programs <- AllPrograms
   QuerySeqs <- QS3
   Permute = TRUE
   CheckOnTableHit = TRUE
